@@ -3,7 +3,7 @@
 Extracts (fail-closed, Python ast):
   * VAL_TYPE_TO_IND (resolving ValueType aliases), ARRAY_OFFSET, the shape of IND_TO_VALTYPE,
   * the struct formats behind SIZES (_binconv_basic/_binconv_cls calls and _struct_X = Struct(fmt)),
-  * parse_bin: the comparison operator of `if attr_type_data OP ARRAY_OFFSET`, the codec argument of every
+  * parse_bin: the comparison operator of `if <type byte local> OP ARRAY_OFFSET`, the codec argument of every
     read_nullstr/read_nullstr_array call (classified by site), what is read after the stub index -2,
   * export_binary: the type-code computation, the codec argument of every `.encode(..) + b'\\0'` write (by site),
     what is written after pack('<i', -2),
@@ -74,7 +74,7 @@ def _raw_func(tree: ast.Module, cls: str, name: str) -> ast.FunctionDef:
 def _func(tree: ast.Module, cls: str, name: str) -> ast.FunctionDef:
     """The method, normalised: calls of one-expression helper functions (nested in the method or at module level) are
     replaced by the helper's expression, so that extracting or inlining such a helper does not change what is read."""
-    return _inline_helpers(_raw_func(tree, cls, name), tree)
+    return _loops_to_updates(_inline_struct_consts(_inline_helpers(_raw_func(tree, cls, name), tree), tree))
 
 
 # ------------------------------------------------------------------------------------------------ normalisation
@@ -184,6 +184,202 @@ def _inline_helpers(fn: ast.FunctionDef, tree: ast.Module) -> ast.FunctionDef:
     return fn
 
 
+_FLIP = {ast.Lt: ast.Gt, ast.Gt: ast.Lt, ast.LtE: ast.GtE, ast.GtE: ast.LtE, ast.Eq: ast.Eq, ast.NotEq: ast.NotEq}
+
+
+def _is_const_operand(n: ast.AST) -> bool:
+    """A literal or a module constant by convention (UPPER_CASE name)."""
+    return isinstance(n, ast.Constant) or (isinstance(n, ast.Name) and n.id.isupper())
+
+
+def _normalise_module(tree: ast.Module) -> ast.Module:
+    """Spelling differences that do not change behaviour, removed once for everything that is read later:
+      * `(x,) = e` / `x, = e`  ->  `[x] = e`  (one-element unpacking target),
+      * `x: T = e` inside a function  ->  `x = e`  (annotations of locals are not evaluated),
+      * `CONST op x`  ->  `x op' CONST` for a single comparison with a literal / UPPER_CASE constant on the left and
+        something else on the right (operands are names, attributes or literals: evaluation order is irrelevant)."""
+    class Norm(ast.NodeTransformer):
+        depth = 0
+
+        def visit_FunctionDef(self, node):
+            self.depth += 1
+            self.generic_visit(node)
+            self.depth -= 1
+            return node
+
+        def visit_AnnAssign(self, node):
+            self.generic_visit(node)
+            if self.depth and node.value is not None and node.simple and isinstance(node.target, ast.Name):
+                return ast.copy_location(ast.Assign(targets=[node.target], value=node.value), node)
+            return node
+
+        def visit_Assign(self, node):
+            self.generic_visit(node)
+            node.targets = [ast.copy_location(ast.List(elts=t.elts, ctx=ast.Store()), t)
+                            if isinstance(t, ast.Tuple) and len(t.elts) == 1 and not isinstance(t.elts[0], ast.Starred) else t
+                            for t in node.targets]
+            return node
+
+        def visit_Compare(self, node):
+            self.generic_visit(node)
+            if len(node.ops) == 1 and type(node.ops[0]) in _FLIP and _is_const_operand(node.left) \
+                    and not _is_const_operand(node.comparators[0]) and _pure_arg(node.comparators[0]):
+                node.left, node.comparators = node.comparators[0], [node.left]
+                node.ops = [_FLIP[type(node.ops[0])]()]
+            return node
+    tree = Norm().visit(tree)
+    ast.fix_missing_locations(tree)
+    return tree
+
+
+def _module_structs(tree: ast.Module) -> dict:
+    """Module-level `NAME = Struct('<fmt>')` / `struct.Struct('<fmt>')` constants assigned exactly once."""
+    out: dict = {}
+    seen: dict = {}
+    for n in tree.body:
+        tgt = val = None
+        if isinstance(n, ast.Assign) and len(n.targets) == 1 and isinstance(n.targets[0], ast.Name):
+            tgt, val = n.targets[0].id, n.value
+        elif isinstance(n, ast.AnnAssign) and isinstance(n.target, ast.Name) and n.value is not None:
+            tgt, val = n.target.id, n.value
+        if tgt is None:
+            continue
+        seen[tgt] = seen.get(tgt, 0) + 1
+        if isinstance(val, ast.Call) and ast.unparse(val.func) in ('Struct', 'struct.Struct') and len(val.args) == 1 and not val.keywords \
+                and isinstance(val.args[0], ast.Constant) and isinstance(val.args[0].value, str):
+            out[tgt] = val.args[0].value
+    return {k: v for k, v in out.items() if seen[k] == 1}
+
+
+def _inline_struct_consts(fn: ast.FunctionDef, tree: ast.Module) -> ast.FunctionDef:
+    """Inside a method: `S.pack(a, ...)` with S a module-level `Struct(fmt)` constant and `struct.pack(fmt, a, ...)`
+    are read as `pack(fmt, a, ...)` (precompiled struct constants vs inline format strings)."""
+    structs = _module_structs(tree)
+    rebound = {n.id for n in ast.walk(fn) if isinstance(n, ast.Name) and not isinstance(n.ctx, ast.Load)} | \
+              {a.arg for a in ast.walk(fn) if isinstance(a, ast.arg)}
+
+    class S(ast.NodeTransformer):
+        def visit_Call(self, c):
+            self.generic_visit(c)
+            f = c.func
+            if isinstance(f, ast.Attribute) and f.attr == 'pack' and isinstance(f.value, ast.Name):
+                if f.value.id in structs and f.value.id not in rebound:
+                    return ast.copy_location(ast.Call(func=ast.Name(id='pack', ctx=ast.Load()),
+                                                      args=[ast.Constant(value=structs[f.value.id])] + c.args, keywords=c.keywords), c)
+                if f.value.id == 'struct' and 'struct' not in rebound:
+                    return ast.copy_location(ast.Call(func=ast.Name(id='pack', ctx=ast.Load()), args=c.args, keywords=c.keywords), c)
+            return c
+    fn = S().visit(fn)
+    ast.fix_missing_locations(fn)
+    return fn
+
+
+_STRUCTS: dict = {}        # module-level Struct constants of the tree being translated (set by translate())
+
+
+def _one_field_unpack(e: ast.AST) -> bool:
+    import struct as _st
+    if not (isinstance(e, ast.Call) and isinstance(e.func, ast.Attribute) and e.func.attr == 'unpack' and isinstance(e.func.value, ast.Name)
+            and e.func.value.id in _STRUCTS and len(e.args) == 1 and not e.keywords):
+        return False
+    try:
+        f = _STRUCTS[e.func.value.id]
+        return len(_st.unpack(f, bytes(_st.calcsize(f)))) == 1
+    except _st.error:
+        return False
+
+
+def _inline_single_use(stmts: list[ast.stmt], params: set) -> list[ast.stmt]:
+    """Straight-line code: `v = E` immediately followed by a simple statement that reads v exactly once (and nothing else
+    in the function reads or writes v) is read as that statement with E in place of v."""
+    import copy
+    stmts = list(stmts)
+    changed = True
+    while changed:
+        changed = False
+        for i in range(len(stmts) - 1):
+            a, b = stmts[i], stmts[i + 1]
+            if isinstance(a, ast.AnnAssign) and isinstance(a.target, ast.Name) and a.value is not None and a.simple:
+                v, e = a.target.id, a.value
+            elif isinstance(a, ast.Assign) and len(a.targets) == 1 and isinstance(a.targets[0], ast.List) and len(a.targets[0].elts) == 1 \
+                    and isinstance(a.targets[0].elts[0], ast.Name) and _one_field_unpack(a.value):
+                # `[v] = S.unpack(b)` with S a one-field module Struct: the same as `v = S.unpack(b)[0]`
+                v = a.targets[0].elts[0].id
+                e = ast.Subscript(value=a.value, slice=ast.Constant(value=0), ctx=ast.Load())
+            elif isinstance(a, ast.Assign) and len(a.targets) == 1 and isinstance(a.targets[0], ast.Name):
+                v, e = a.targets[0].id, a.value
+            else:
+                continue
+            if v in params or not isinstance(b, (ast.Return, ast.Assign, ast.Expr, ast.AugAssign, ast.AnnAssign)):
+                continue
+            occ = [n for st in stmts for n in ast.walk(st) if (isinstance(n, ast.Name) and n.id == v) or (isinstance(n, ast.arg) and n.arg == v)]
+            loads_b = [n for n in ast.walk(b) if isinstance(n, ast.Name) and n.id == v and isinstance(n.ctx, ast.Load)]
+            if len(occ) != 2 or len(loads_b) != 1:                     # the store in a, one load in b
+                continue
+            if any(isinstance(n, (ast.Lambda, ast.GeneratorExp, ast.ListComp, ast.SetComp, ast.DictComp, ast.FunctionDef)) for n in ast.walk(b)):
+                continue
+            if any(isinstance(n, (ast.Yield, ast.YieldFrom, ast.Await, ast.NamedExpr)) for n in ast.walk(e)):
+                continue
+
+            class Sub(ast.NodeTransformer):
+                def visit_Name(self, n):
+                    return copy.deepcopy(e) if n.id == v and isinstance(n.ctx, ast.Load) else n
+            nb = Sub().visit(copy.deepcopy(b))
+            ast.fix_missing_locations(nb)
+            stmts[i:i + 2] = [nb]
+            changed = True
+            break
+    return stmts
+
+
+def _terminates(stmts: list[ast.stmt]) -> bool:
+    return bool(stmts) and isinstance(stmts[-1], (ast.Return, ast.Raise, ast.Continue, ast.Break))
+
+
+def _flatten_returns(stmts: list[ast.stmt]) -> list[ast.stmt]:
+    """`if c: ...; return A` + `else: B`  ->  `if c: ...; return A` followed by B (also through elif chains): the
+    early-return form is the one that is read."""
+    import copy
+    out: list[ast.stmt] = []
+    for st in stmts:
+        if isinstance(st, ast.If):
+            st = copy.copy(st)
+            st.body = _flatten_returns(st.body)
+            st.orelse = _flatten_returns(st.orelse)
+            if st.orelse and _terminates(st.body):
+                tail, st.orelse = st.orelse, []
+                out.append(st)
+                out.extend(tail)
+                continue
+        out.append(st)
+    return out
+
+
+def _loops_to_updates(fn: ast.FunctionDef) -> ast.FunctionDef:
+    """`for x in IT: [if C:] S.add(E)`  ->  `S.update((E for x in IT [if C]))` (comprehension vs loop)."""
+    class L(ast.NodeTransformer):
+        def visit_For(self, node):
+            self.generic_visit(node)
+            if node.orelse or len(node.body) != 1 or not isinstance(node.target, ast.Name):
+                return node
+            st, conds = node.body[0], []
+            while isinstance(st, ast.If) and not st.orelse and len(st.body) == 1:
+                conds.append(st.test)
+                st = st.body[0]
+            if not (isinstance(st, ast.Expr) and isinstance(st.value, ast.Call) and isinstance(st.value.func, ast.Attribute)
+                    and st.value.func.attr == 'add' and isinstance(st.value.func.value, ast.Name) and len(st.value.args) == 1
+                    and not st.value.keywords and st.value.func.value.id != node.target.id):
+                return node
+            if any(isinstance(n, ast.Name) and n.id == st.value.func.value.id for c in conds + [node.iter, st.value.args[0]] for n in ast.walk(c)):
+                return node                       # the set is read while it is filled: not the same as one update
+            gen = ast.GeneratorExp(elt=st.value.args[0], generators=[ast.comprehension(target=node.target, iter=node.iter, ifs=conds, is_async=0)])
+            call = ast.Call(func=ast.Attribute(value=st.value.func.value, attr='update', ctx=ast.Load()), args=[gen], keywords=[])
+            return ast.copy_location(ast.Expr(value=call), node)
+    fn = L().visit(fn)
+    ast.fix_missing_locations(fn)
+    return fn
+
+
 def _enc_arg(node: ast.AST | None, where) -> str:
     if node is None:
         return 'EncAscii'
@@ -217,24 +413,40 @@ def _parse_bin(fn: ast.FunctionDef) -> dict:
     _encoding_assignment(fn, "'utf8' if unicode else 'ascii'")
     par = _parents(fn)
     # the split test
+    # the local that holds the type byte, whatever it is called: `attr_type = IND_TO_VALTYPE[D]`, `[D] = struct_read('<B', file)`
+    dvars = [n.value.slice.id for n in ast.walk(fn) if isinstance(n, ast.Assign) and ast.unparse(n.targets[0]) == 'attr_type'
+             and isinstance(n.value, ast.Subscript) and ast.unparse(n.value.value) == 'IND_TO_VALTYPE' and isinstance(n.value.slice, ast.Name)]
+    if len(dvars) != 1:
+        _fail('parse_bin: `attr_type = IND_TO_VALTYPE[<local>]` not found exactly once')
+    dv = dvars[0]
+    if not any(isinstance(n, ast.Assign) and ast.unparse(n) == f"[{dv}] = binformat.struct_read('<B', file)" for n in ast.walk(fn)):
+        _fail(f"parse_bin: `[{dv}] = binformat.struct_read('<B', file)` not found")
     splits = [n for n in ast.walk(fn) if isinstance(n, ast.If) and isinstance(n.test, ast.Compare)
-              and 'attr_type_data' in ast.unparse(n.test)]
+              and any(isinstance(x, ast.Name) and x.id == dv for x in ast.walk(n.test))]
     if len(splits) != 1:
-        _fail(f'parse_bin: expected one test on attr_type_data, found {len(splits)}')
+        _fail(f'parse_bin: expected one test on {dv}, found {len(splits)}')
     sp = splits[0]
     t = sp.test
-    if not (isinstance(t.left, ast.Name) and t.left.id == 'attr_type_data' and len(t.ops) == 1
+    if not (isinstance(t.left, ast.Name) and t.left.id == dv and len(t.ops) == 1
             and isinstance(t.comparators[0], ast.Name) and t.comparators[0].id == 'ARRAY_OFFSET' and type(t.ops[0]) in CMP):
         _fail(f'parse_bin: unrecognised split test `{ast.unparse(t)}`', sp)
     out['split_cmp'] = CMP[type(t.ops[0])]
     out['split_line'] = sp.lineno
+    # the local that holds the array length (None for a scalar)
+    if not (len(sp.body) == 2 and isinstance(sp.body[1], ast.Assign) and len(sp.body[1].targets) == 1 and isinstance(sp.body[1].targets[0], ast.List)
+            and len(sp.body[1].targets[0].elts) == 1 and isinstance(sp.body[1].targets[0].elts[0], ast.Name)):
+        _fail(f'parse_bin: unrecognised array branch {[ast.unparse(s) for s in sp.body]}', sp)
+    av = sp.body[1].targets[0].elts[0].id
     body = [ast.unparse(s) for s in sp.body]
-    if body != ['attr_type_data -= ARRAY_OFFSET', "[array_size] = binformat.struct_read('<i', file)"]:
+    if body != [f'{dv} -= ARRAY_OFFSET', f"[{av}] = binformat.struct_read('<i', file)"]:
         _fail(f'parse_bin: unrecognised array branch {body}', sp)
-    if [ast.unparse(s) for s in sp.orelse] != ['array_size = None']:
+    if [ast.unparse(s) for s in sp.orelse] != [f'{av} = None']:
         _fail('parse_bin: unrecognised scalar branch', sp)
-    if not any(isinstance(n, ast.Assign) and ast.unparse(n) == 'attr_type = IND_TO_VALTYPE[attr_type_data]' for n in ast.walk(fn)):
-        _fail('parse_bin: `attr_type = IND_TO_VALTYPE[attr_type_data]` not found')
+    bare = {id(n.target) for n in ast.walk(fn) if isinstance(n, ast.AnnAssign) and n.value is None}
+    for var_ in (dv, av):           # each is written by its struct_read and once in the split, nowhere else
+        st_ = [n for n in ast.walk(fn) if isinstance(n, ast.Name) and n.id == var_ and not isinstance(n.ctx, ast.Load) and id(n) not in bare]
+        if len(st_) != 2 or dv == av:
+            _fail(f'parse_bin: the local `{var_}` is written {len(st_)} times, 2 expected', sp)
     # string read sites
     name_sites = ['SiteElName', 'SiteAttrName']
     stub_read = None
@@ -250,7 +462,7 @@ def _parse_bin(fn: ast.FunctionDef) -> dict:
                 _fail(f'parse_bin: unrecognised `{ast.unparse(c)}`', c)
             enc = _enc_arg(c.args[2] if len(c.args) == 3 else kw.get('encoding'), c)
             cnt = ast.unparse(c.args[1])
-            site = {'string_count': 'SiteTable', 'array_size': 'SiteArrayStr'}.get(cnt)
+            site = {'string_count': 'SiteTable', av: 'SiteArrayStr'}.get(cnt)
             if site is None:
                 _fail(f'parse_bin: unclassified string array read `{ast.unparse(c)}`', c)
         else:
@@ -291,12 +503,20 @@ def _export_binary(fn: ast.FunctionDef) -> dict:
     _encoding_assignment(fn, "'utf8' if unicode != 'ascii' else 'ascii'")
     par = _parents(fn)
     src = [ast.unparse(n) for n in ast.walk(fn) if isinstance(n, ast.stmt)]
-    for need in ('typ_ind = VAL_TYPE_TO_IND[attr.type]', "file.write(pack('B', typ_ind))"):
-        if need not in src:
-            _fail(f'export_binary: `{need}` not found')
-    if not any(isinstance(n, ast.If) and ast.unparse(n.test) == 'attr.is_array'
-               and [ast.unparse(s) for s in n.body] == ['typ_ind += ARRAY_OFFSET'] for n in ast.walk(fn)):
-        _fail('export_binary: `if attr.is_array: typ_ind += ARRAY_OFFSET` not found')
+    # the local that holds the type code, whatever it is called: `T = VAL_TYPE_TO_IND[attr.type]`
+    tvars = [n.targets[0].id for n in ast.walk(fn) if isinstance(n, ast.Assign) and len(n.targets) == 1 and isinstance(n.targets[0], ast.Name)
+             and ast.unparse(n.value) == 'VAL_TYPE_TO_IND[attr.type]']
+    if len(tvars) != 1:
+        _fail('export_binary: `<local> = VAL_TYPE_TO_IND[attr.type]` not found exactly once')
+    tv = tvars[0]
+    stores = [n for n in ast.walk(fn) if isinstance(n, ast.Name) and n.id == tv and not isinstance(n.ctx, ast.Load)]
+    if len(stores) != 2:                       # the assignment and the `+= ARRAY_OFFSET`
+        _fail(f'export_binary: the type code local `{tv}` is written {len(stores)} times, 2 expected')
+    if f"file.write(pack('B', {tv}))" not in src:
+        _fail(f"export_binary: `file.write(pack('B', {tv}))` not found")
+    if not any(isinstance(n, ast.If) and ast.unparse(n.test) == 'attr.is_array' and not n.orelse
+               and [ast.unparse(s) for s in n.body] == [f'{tv} += ARRAY_OFFSET'] for n in ast.walk(fn)):
+        _fail(f'export_binary: `if attr.is_array: {tv} += ARRAY_OFFSET` not found')
 
     def enclosing_for(n):
         while n in par:
@@ -517,9 +737,14 @@ def _member_loop(loop: ast.For, elem: str, where):
         key_var, attr_var = loop.target.elts[0].id, loop.target.elts[1].id
     elif it in (f'{elem}._members.values()', f'{elem}.values()') and isinstance(loop.target, ast.Name):
         attr_var = loop.target.id
+    elif _members_expr(loop.iter, elem) and isinstance(loop.target, ast.Name):
+        key_var = loop.target.id            # for K in elem._members: [A = elem._members[K]] ...
     else:
         _fail(f'export_binary: unrecognised loop over the members `for {ast.unparse(loop.target)} in {it}`', loop)
     body = _strip_doc(loop.body)
+    if attr_var is None and body and isinstance(body[0], ast.Assign) and len(body[0].targets) == 1 and isinstance(body[0].targets[0], ast.Name) \
+            and ast.unparse(body[0].value) == f'{elem}._members[{key_var}]':
+        attr_var, body = body[0].targets[0].id, body[1:]
     mentions = lambda n: any(isinstance(x, ast.Constant) and isinstance(x.value, str) for x in ast.walk(n))
     first = body[0] if body else None
     if isinstance(first, ast.If) and not first.orelse and len(first.body) >= 1 and isinstance(first.body[-1], ast.Continue) \
@@ -637,6 +862,83 @@ def _name_getter(tree: ast.Module) -> dict:
     return {'key': keys.pop(), 'default': consts[0], 'len_is_members': ln == ['return len(self._members)']}
 
 
+# ------------------------------------------------------------------------------------------------ readers: the key a record is stored under
+def _member_stores(fn: ast.FunctionDef, obj: str) -> list[dict]:
+    """Every `OBJ._members[KEY] = VALUE` of a reader: is KEY the casefolded attribute name or the name as written, and
+    is the name that is stored in the Attribute the same variable?"""
+    def single_assign(var):
+        v = [n for n in ast.walk(fn) if isinstance(n, ast.Assign) and len(n.targets) == 1 and isinstance(n.targets[0], ast.Name)
+             and n.targets[0].id == var]
+        stores = [n for n in ast.walk(fn) if isinstance(n, ast.Name) and n.id == var and not isinstance(n.ctx, ast.Load)]
+        return v[0].value if len(v) == 1 and len(stores) == 1 else None
+
+    def key_of(k, depth=0):
+        if isinstance(k, ast.Call) and isinstance(k.func, ast.Attribute) and k.func.attr == 'casefold' and not k.args and not k.keywords \
+                and isinstance(k.func.value, ast.Name):
+            return 'KFolded', k.func.value.id
+        if isinstance(k, ast.Name):
+            e = single_assign(k.id) if depth == 0 else None      # key = name.casefold(); elem._members[key] = ...
+            if e is not None and isinstance(e, ast.Call) and isinstance(e.func, ast.Attribute) and e.func.attr == 'casefold':
+                return key_of(e, depth + 1)
+            return 'KAsWritten', k.id
+        _fail(f'{fn.name}: unrecognised key `{ast.unparse(k)}` of a member store', k)
+
+    def attr_ctor_name(call):
+        """first argument of Attribute(...) / Attribute.<classmethod>(...)"""
+        if isinstance(call, ast.Call) and ast.unparse(call.func).split('.')[0] == 'Attribute' and call.args and isinstance(call.args[0], ast.Name):
+            return call.args[0].id
+        return None
+    out = []
+    for n in ast.walk(fn):
+        if not (isinstance(n, ast.Assign) and len(n.targets) == 1 and isinstance(n.targets[0], ast.Subscript)
+                and ast.unparse(n.targets[0].value) == f'{obj}._members'):
+            continue
+        fn_kind, name_var = key_of(n.targets[0].slice)
+        if isinstance(n.value, ast.Name):
+            kind = 'attr'
+            made = [attr_ctor_name(a.value) for a in ast.walk(fn) if isinstance(a, ast.Assign) and len(a.targets) == 1
+                    and isinstance(a.targets[0], ast.Name) and a.targets[0].id == n.value.id and isinstance(a.value, ast.Call)
+                    and ast.unparse(a.value.func).split('.')[0] == 'Attribute']
+            if not made or any(m != name_var for m in made):
+                _fail(f'{fn.name}: `{ast.unparse(n)}`: the attribute stored is not always built as Attribute({name_var}, ...)', n)
+        elif attr_ctor_name(n.value) is not None:
+            kind = 'inline'
+            if attr_ctor_name(n.value) != name_var:
+                _fail(f'{fn.name}: `{ast.unparse(n.targets[0])}`: key and attribute name come from different variables', n)
+        else:
+            _fail(f'{fn.name}: unrecognised member store `{ast.unparse(n)}`', n)
+        out.append({'kind': kind, 'key': fn_kind, 'line': n.lineno})
+    return out
+
+
+def _parse_keys(tree: ast.Module) -> dict:
+    def agree(stores, kind, where):
+        ks = {s_['key'] for s_ in stores if s_['kind'] == kind}
+        if not ks:
+            _fail(f'{where}: no `elem._members[...] = ...` store of kind {kind}')
+        return 'KAsWritten' if 'KAsWritten' in ks else 'KFolded', min(s_['line'] for s_ in stores if s_['kind'] == kind)
+    pb = _member_stores(_func(tree, 'Element', 'parse_bin'), 'elem')
+    if any(s_['kind'] != 'attr' for s_ in pb):
+        _fail('parse_bin: unrecognised member store')
+    k2 = _member_stores(_func(tree, 'Element', '_parse_kv2_element'), 'elem')
+    out = {'bin': agree(pb, 'attr', 'parse_bin'), 'kv2_attr': agree(k2, 'attr', '_parse_kv2_element'),
+           'kv2_inline': agree(k2, 'inline', '_parse_kv2_element')}
+    # Element.__init__: self._members = {KEY: Attribute(NAME, ValueType.STRING, name)}
+    init = _raw_func(tree, 'Element', '__init__')
+    params = [a.arg for a in init.args.args]
+    st = [n for n in ast.walk(init) if isinstance(n, ast.Assign) and len(n.targets) == 1 and ast.unparse(n.targets[0]) == 'self._members']
+    if not (len(st) == 1 and isinstance(st[0].value, ast.Dict) and len(st[0].value.keys) == 1 and isinstance(st[0].value.keys[0], ast.Constant)
+            and isinstance(st[0].value.keys[0].value, str)):
+        _fail('Element.__init__: `self._members = {KEY: Attribute(...)}` with one literal key expected', init)
+    v = st[0].value.values[0]
+    if not (isinstance(v, ast.Call) and ast.unparse(v.func) == 'Attribute' and len(v.args) == 3 and not v.keywords
+            and isinstance(v.args[0], ast.Constant) and isinstance(v.args[0].value, str) and ast.unparse(v.args[1]) == 'ValueType.STRING'
+            and isinstance(v.args[2], ast.Name) and len(params) >= 2 and v.args[2].id == params[1]):
+        _fail(f'Element.__init__: unrecognised initial member `{ast.unparse(v)}`', init)
+    out['init_key'], out['init_name'] = st[0].value.keys[0].value, v.args[0].value
+    return out
+
+
 # ------------------------------------------------------------------------------------------------ scalar codecs
 def _top_func(tree: ast.Module, name: str) -> ast.FunctionDef:
     for n in tree.body:
@@ -646,11 +948,11 @@ def _top_func(tree: ast.Module, name: str) -> ast.FunctionDef:
 
 
 def _body(fn: ast.FunctionDef) -> list[ast.stmt]:
-    """Statements of a function without its docstring."""
+    """Statements of a function without its docstring; single-use locals inlined, `else` after a returning branch hoisted."""
     b = list(fn.body)
     if b and isinstance(b[0], ast.Expr) and isinstance(b[0].value, ast.Constant) and isinstance(b[0].value.value, str):
         b = b[1:]
-    return b
+    return _flatten_returns(_inline_single_use(b, {a.arg for a in ast.walk(fn.args) if isinstance(a, ast.arg)}))
 
 
 def _binconv_shapes(tree: ast.Module) -> None:
@@ -709,12 +1011,13 @@ def _time_codec(tree: ast.Module) -> dict:
     r = _top_func(tree, '_conv_binary_to_time')
     rb = _body(r)
     rarg = r.args.args[0].arg if len(r.args.args) == 1 else _fail('_conv_binary_to_time: one parameter expected', r)
-    if not (len(rb) == 2 and ast.unparse(rb[0]) == f'[num] = _struct_time.unpack({rarg})' and isinstance(rb[1], ast.Return)
-            and isinstance(rb[1].value, ast.Call) and ast.unparse(rb[1].value.func) == 'Time' and len(rb[1].value.args) == 1
-            and not rb[1].value.keywords and isinstance(rb[1].value.args[0], ast.BinOp)
-            and isinstance(rb[1].value.args[0].op, ast.Div) and ast.unparse(rb[1].value.args[0].left) == 'num'):
+    # (the one-element unpacking `[num] = _struct_time.unpack(byt)` is read as `_struct_time.unpack(byt)[0]` by _body)
+    if not (len(rb) == 1 and isinstance(rb[0], ast.Return)
+            and isinstance(rb[0].value, ast.Call) and ast.unparse(rb[0].value.func) == 'Time' and len(rb[0].value.args) == 1
+            and not rb[0].value.keywords and isinstance(rb[0].value.args[0], ast.BinOp)
+            and isinstance(rb[0].value.args[0].op, ast.Div) and ast.unparse(rb[0].value.args[0].left) == f'_struct_time.unpack({rarg})[0]'):
         _fail('_conv_binary_to_time: `[num] = _struct_time.unpack(byt); return Time(num / C)` expected', r)
-    div = _int_valued_float(rb[1].value.args[0].right, r)
+    div = _int_valued_float(rb[0].value.args[0].right, r)
     return {'round': ROUNDERS[ast.unparse(inner.func)], 'mul': mul, 'div': div, 'line': w.lineno}
 
 
@@ -980,11 +1283,11 @@ def _value_text(tree: ast.Module) -> dict:
     r = _top_func(tree, '_conv_string_to_color')
     rarg = r.args.args[0].arg
     rb = _body(r)
-    if not (len(rb) == 2 and ast.unparse(rb[0]) == f'parts = {rarg}.split()' and isinstance(rb[1], ast.If)):
-        _fail('_conv_string_to_color: unrecognised frame', r)
+    if not (len(rb) >= 3 and ast.unparse(rb[0]) == f'parts = {rarg}.split()' and all(isinstance(x, ast.If) and not x.orelse for x in rb[1:-1])
+            and isinstance(rb[-1], ast.Raise)):
+        _fail('_conv_string_to_color: unrecognised frame (parts = text.split(); returning branches on len(parts); raise)', r)
     reads = []
-    node = rb[1]
-    while True:
+    for node in rb[1:-1]:
         mm = re.fullmatch(r'len\(parts\) == (\d+)', ast.unparse(node.test))
         if mm is None or len(node.body) != 1 or not isinstance(node.body[0], ast.Return):
             _fail(f'_conv_string_to_color: unrecognised branch `{ast.unparse(node.test)}`', node)
@@ -1001,12 +1304,6 @@ def _value_text(tree: ast.Module) -> dict:
             else:
                 _fail(f'_conv_string_to_color: unrecognised argument `{ast.unparse(a)}`', node)
         reads.append((int(mm.group(1)), args))
-        if len(node.orelse) == 1 and isinstance(node.orelse[0], ast.If):
-            node = node.orelse[0]
-            continue
-        if not (len(node.orelse) == 1 and isinstance(node.orelse[0], ast.Raise)):
-            _fail('_conv_string_to_color: the last branch must raise', node)
-        break
     out['color_read'] = reads
     # binary blobs
     w = _top_func(tree, '_conv_binary_to_string')
@@ -1369,7 +1666,9 @@ def _coq_str(s: str) -> str:
 
 
 def translate() -> tuple[str, dict]:
-    tree = ast.parse(src_text('dmx.py'))
+    tree = _normalise_module(ast.parse(src_text('dmx.py')))
+    _STRUCTS.clear()
+    _STRUCTS.update(_module_structs(tree))
     vts = _value_types(tree)
     side: dict = {}
     # VAL_TYPE_TO_IND / ARRAY_OFFSET / IND_TO_VALTYPE
@@ -1451,6 +1750,7 @@ def translate() -> tuple[str, dict]:
     kv1 = _kv1(tree)
     cnt = _attr_count(_func(tree, 'Element', 'export_binary'))
     ngt = _name_getter(tree)
+    pkeys = _parse_keys(tree)
     # scalar codecs
     _binconv_shapes(tree)
     tcodec = _time_codec(tree)
@@ -1482,6 +1782,7 @@ def translate() -> tuple[str, dict]:
                 attr_count={'len': cnt['count'].ln, 'has': cnt['count'].has, 'has_key': cnt['count'].has_key, 'const': cnt['count'].const,
                             'kept': cnt['count'].kept, 'kept_filter': cnt['count'].kept_filter, 'write_filter': cnt['write_filter'],
                             'collect_filter': cnt['collect_filter'], 'line': cnt['line'], 'name_getter': ngt},
+                parse_keys=pkeys,
                 digests={f: ast_digest(_func(tree, 'Element', f)) for f in
                          ('parse_bin', 'export_binary', 'export_kv2', '_export_kv2', 'parse_kv2', '_parse_kv2_element')})
 
@@ -1496,7 +1797,7 @@ def translate() -> tuple[str, dict]:
     umfun = lambda d: ('fun m => match m with UAscii => ' + b(d['ascii']) + ' | UFormat => ' + b(d['format']) + ' | USilent => ' + b(d['silent']) + ' end')
     lines = [
         '(* GENERATED by translate/c14_dmx.py from /repo/src/srctools/dmx.py. Do not edit. *)',
-        'From Coq Require Import NArith ZArith List String.', 'From SV Require Import Num.Dec6 Fmt.DmxCodes Fmt.DmxBin Fmt.DmxMembers Fmt.DmxKv1 Fmt.DmxKv1Sel Fmt.DmxScalar Fmt.DmxKv2 Fmt.DmxValText Fmt.DmxHeader.', 'Import ListNotations.',
+        'From Coq Require Import NArith ZArith List String.', 'From SV Require Import Num.Dec6 Fmt.DmxCodes Fmt.DmxBin Fmt.DmxMembers Fmt.DmxMembersParse Fmt.DmxKv1 Fmt.DmxKv1Sel Fmt.DmxScalar Fmt.DmxKv2 Fmt.DmxValText Fmt.DmxHeader.', 'Import ListNotations.',
         'Open Scope N_scope.',
         'Definition gen_cfg : dmxcfg := {|',
         '  code_table := [' + '; '.join(f'({c}, {i})' for c, i, _ in table) + '];',
@@ -1565,6 +1866,9 @@ def translate() -> tuple[str, dict]:
         f'  cc_write_filter := {mfilter(cnt["write_filter"])}; cc_collect_filter := {mfilter(cnt["collect_filter"])};',
         f'  cc_name_key := {_coq_str(ngt["key"])}; cc_name_default := {_coq_str(ngt["default"])}; cc_len_is_members := {b(ngt["len_is_members"])};',
         '|}.',
+        '(* the readers: under which key an attribute record is stored in the dict of the element; the member Element() starts with *)',
+        f'Definition gen_parse : parsecfg := {{| pk_bin := {pkeys["bin"][0]}; pk_kv2_attr := {pkeys["kv2_attr"][0]}; pk_kv2_inline := {pkeys["kv2_inline"][0]}; '
+        f'pk_init_key := {_coq_str(pkeys["init_key"])}; pk_init_name := {_coq_str(pkeys["init_name"])} |}}.',
         '(* from_kv1: which name of a leaf (casefolded .name / case-preserved .real_name) the reserved-name test and the duplicate test read *)',
         f'Definition gen_kv1_reserved_sel : namesel := {kv1["reserved_sel"]}.',
         f'Definition gen_kv1_dup_sel : namesel := {kv1["dup_sel"]}.',
